@@ -1,2 +1,77 @@
-(* C03 — placeholder until the theorems are written (pipeline bring-up). *)
+(* C03 — LST supply integrity and exact delivery of minted tokens (contract-level part; the supply and
+   contract-balance equations over whole histories are in Properties/C03w.v over the World model). *)
 From MW Require Import Staking.
+From MW.Proofs Require Import Tactics Handlers.
+Open Scope N_scope.
+
+(* A successful LiquidStake: one mint of m to the contract itself, the stake forwarded to the staker, and
+   exactly one delivery of exactly m LST — a bank send to a protocol-chain recipient or an IBC transfer to a
+   native-chain recipient (the flag decides when the address is valid on both) — and nothing else carries LST;
+   the LST total grows by exactly m *)
+Theorem C03_delivery : forall va dv av s e i mt tn ex s' r,
+  execute va dv av s e i (LiquidStake mt tn ex) = Ok (s', r) ->
+  exists a m om,
+    let D := pc_denom (protocol (cfg s)) in
+    let addr := opt_default (sender i) mt in
+    let sid := sub_id e None in
+    let timeout := now_ns e + IBC_TIMEOUT_NS in
+    let stake_sub := transfer_sub s e sid (nc_staker (native (cfg s))) {| c_denom := D; c_amount := a |} timeout in
+    let lstc := {| c_denom := lst_denom (cfg s); c_amount := m |} in
+    must_pay i D = Ok a
+    /\ m <> 0
+    /\ total_lst (st s') = total_lst (swept (st s)) + m
+    /\ oracle_msgs s' e = Ok om
+    /\ (va addr (nc_prefix (native (cfg s))) || va addr (pc_prefix (protocol (cfg s))) = true)
+    /\ ((stake_to_protocol va s addr tn = true
+         /\ r = ([mint_msg s e m] ++ om ++ [stake_sub] ++ [plain (ASend (self e) addr lstc)])%list)
+        \/ (stake_to_protocol va s addr tn = false
+            /\ r = ([mint_msg s e m] ++ om ++ [stake_sub] ++ [transfer_sub s e (sid + 1) addr lstc timeout])%list)).
+Proof.
+  intros va dv av s e i mt tn ex s' r H.
+  destruct (liquid_stake_inv va dv av s e i mt tn ex s' r H)
+    as (a & m & om & Hp & _ & _ & Hv & _ & _ & Hnz & _ & Hst & _ & _ & _ & _ & _ & _ & _ & _ & _ & Ho & Hr).
+  exists a, m, om. cbv zeta. rewrite Hst. cbn.
+  repeat (split; [assumption || reflexivity|]).
+  destruct Hr as [(P & R & _) | (P & R & _)]; [left | right]; split; assumption.
+Qed.
+Print Assumptions C03_delivery.
+
+(* the classification of the recipient: protocol-chain delivery iff the address is valid under the protocol
+   prefix and (it is not also valid under the native prefix, or the caller did not ask for the native chain) *)
+Theorem C03_classification : forall va s addr tn,
+  stake_to_protocol va s addr tn = true <->
+  (va addr (pc_prefix (protocol (cfg s))) = true
+   /\ (va addr (nc_prefix (native (cfg s))) = false \/ tn <> Some true)).
+Proof.
+  intros va s addr tn. unfold stake_to_protocol.
+  destruct (va addr (nc_prefix (native (cfg s)))), (va addr (pc_prefix (protocol (cfg s)))), tn as [[|]|]; cbn;
+    intuition (try discriminate; try congruence).
+Qed.
+Print Assumptions C03_classification.
+
+(* a sender whose address is not <protocol prefix> + 39 characters must name a recipient *)
+Theorem C03_contract_sender_must_name_recipient : forall va dv av s e i tn ex s' r,
+  execute va dv av s e i (LiquidStake None tn ex) = Ok (s', r) ->
+  slen (sender i) = slen (pc_prefix (protocol (cfg s))) + 39.
+Proof.
+  intros va dv av s e i tn ex s' r H.
+  destruct (liquid_stake_inv va dv av s e i None tn ex s' r H) as (a & m & om & _ & _ & Hn & _).
+  apply Hn. reflexivity.
+Qed.
+Print Assumptions C03_contract_sender_must_name_recipient.
+
+(* SubmitBatch burns exactly the batch total, from the contract's own balance, and lowers the LST total by it *)
+Theorem C03_burn : forall va dv av s e i s' r,
+  execute va dv av s e i SubmitBatch = Ok (s', r) ->
+  exists b om,
+    nfind (pending_id s) (batches s) = Some b
+    /\ b_total b <= total_lst (st s)
+    /\ total_lst (st s') = total_lst (st s) - b_total b
+    /\ oracle_msgs s' e = Ok om
+    /\ r = plain (ABurn (self e) {| c_denom := lst_denom (cfg s); c_amount := b_total b |} (self e)) :: om.
+Proof.
+  intros va dv av s e i s' r H.
+  destruct (submit_batch_inv va dv av s e i s' r H) as (b & u & om & _ & Hb & _ & _ & Hle & _ & Hst & _ & _ & _ & _ & _ & _ & _ & _ & Ho & Hr).
+  exists b, om. rewrite Hst. cbn. repeat split; assumption.
+Qed.
+Print Assumptions C03_burn.
